@@ -643,6 +643,10 @@ func (c *Compiler) ExpandModules() (err error) {
 		r := module.GetModule()
 		g.AddVertex(mn)
 		for _, i := range r.ChildrenByType(parse.NodeImport) {
+			if i.Name() == mn {
+				// the shortest circular chain of imports
+				c.error(i, fmt.Errorf("module %s imports itself", mn))
+			}
 			g.AddEdge(mn, i.Name())
 		}
 	}
